@@ -224,6 +224,76 @@ def conditions_fold_rule(ctx, rule="R15g"):
     return "unknown" if (bad or "").startswith("idiom not recognised") else ("bad" if bad else "ok")
 
 
+def _keys_semantics(fa, b):
+    """Decide the `Keys` arm by abstract interpretation of evaluate_condition: the condition lists 0, 1 or 2 opaque keys,
+    each contained / not contained in the element's keys; the outcome must be Continue(all contained).  Returns
+    (None, runs) when every row agrees, (text, runs) for the first wrong row; raises absint.Unknown for an idiom the
+    interpreter does not know."""
+    from lib import absint
+    runs = 0
+    for n in (0, 1, 2):
+        for mask in range(1 << n):
+            contained = [bool(mask >> k & 1) for k in range(n)]
+            queue = {"pos": 0}
+
+            def hook(interp, env, t, depth=0):
+                nm = cfg.callee(t) or ""
+                d = cfg.callee_decl(t) or nm
+                lastn = last(d)
+                args = t["a"]
+
+                def val(k):
+                    return interp.deref(interp.operand(env, args[k]))
+                if common.norm(nm).endswith("DbKeyValues::keys"):
+                    return ("enum", "Ok", [("sym", "element-keys")])
+                if lastn in ("iter", "into_iter") and args and val(0) == ("sym", "payload"):
+                    return ("sym", "iter:payload")
+                if lastn in ("deref", "as_slice", "as_ref", "borrow") and args and val(0)[0] == "sym":
+                    return interp.operand(env, args[0])
+                if d.endswith("Iterator::next") and val(0) == ("sym", "iter:payload"):
+                    k = queue["pos"]
+                    if k >= n:
+                        return ("enum", "None", [])
+                    queue["pos"] = k + 1
+                    return ("enum", "Some", [("ref", ("sym", "key%d" % k))])
+                if lastn in ("all", "any") and d.endswith(("Iterator::all", "Iterator::any")) and val(0) == ("sym", "iter:payload"):
+                    out = lastn == "all"
+                    while queue["pos"] < n:
+                        k = queue["pos"]
+                        queue["pos"] = k + 1
+                        r = absint.call_closure(fa, interp, interp.operand(env, args[1]), [("ref", ("sym", "key%d" % k))], hook, depth)
+                        if r[0] != "bool":
+                            raise absint.Unknown("closure result %s" % (r,))
+                        if lastn == "all" and not r[1]:
+                            return ("bool", False)
+                        if lastn == "any" and r[1]:
+                            return ("bool", True)
+                    return ("bool", out)
+                if lastn == "contains" and len(args) == 2:
+                    a0, a1 = val(0), val(1)
+                    if a0 == ("sym", "element-keys") and a1[0] == "sym" and a1[1].startswith("key"):
+                        return ("bool", contained[int(a1[1][3:])])
+                    raise absint.Unknown("contains(%s, %s)" % (a0, a1))
+                if fa.body(nm) is not None and not common.norm(nm).endswith(("evaluate_conditions",)):
+                    try:
+                        return absint.call_workspace(fa, interp, env, t, hook, depth)
+                    except absint.Unknown:
+                        return ("sym", "opaque")       # an opaque value cannot be branched on (that raises Unknown)
+                return None
+            env = {}
+            for k in range(1, b.d["argc"] + 1):
+                env[k] = ("sym", "arg%d" % k)
+            env[b.d["argc"]] = ("ref", ("enum", "Keys", [("sym", "payload")]))
+            r = absint.Interp(b, {}, hook, max_steps=3000, fa=fa).run(env)
+            runs += 1
+            want = all(contained)
+            ok = r[0] == "enum" and r[1] == "Ok" and r[2] and r[2][0] == ("enum", "Continue", [("bool", want)])
+            if not ok:
+                return ("with %d listed key(s) of which %s are among the element's keys the outcome is %s, documented Continue(%s)" % (
+                    n, [k for k in range(n) if contained[k]] or "none", absint.show(r), str(want).lower()), runs)
+    return (None, runs)
+
+
 def keys_condition_rule(ctx, rule="R15h"):
     """`keys(k1..kn)` holds iff EVERY listed key is among the element's keys: in the `Keys` arm of evaluate_condition the
     flag is `values.all(|k| element_keys.contains(k))` (or the De Morgan form with `any`), where the iterated values are
@@ -233,6 +303,19 @@ def keys_condition_rule(ctx, rule="R15h"):
     b = ctx.anchor(rule, "agdb::db::DbImpl::evaluate_condition")
     if not b:
         return
+    # first: the semantics of the arm, whatever its spelling (iterator adaptor, explicit loop, helper)
+    from lib import absint
+    try:
+        bad, runs = _keys_semantics(fa, b)
+        ctx.ob(rule, "evaluate_condition:keys-all-contained", bad is None,
+               "Keys => Continue(every listed key is among DbKeyValues::keys(index)) in all %d abstract rows (0-2 keys)" % runs
+               if bad is None else
+               "DbImpl::evaluate_condition: the `keys` condition is no longer `all listed keys are among the element's keys`: %s" % bad,
+               b.where)
+        return
+    except absint.Unknown as e:
+        unknown = str(e)
+    # fallback: the two iterator idioms, read structurally
     sw = None
     for i, blk in enumerate(b.blocks):
         t = blk["term"]
@@ -294,7 +377,7 @@ def keys_condition_rule(ctx, rule="R15h"):
     ctx.ob(rule, "evaluate_condition:keys-all-contained", ok,
            "Keys => every key of the condition is contained in DbKeyValues::keys(index)" if ok else
            "DbImpl::evaluate_condition: the `keys` condition is no longer `all listed keys are among the element's keys` (%s); "
-           "accepted idioms: values.iter().all(|k| keys.contains(k)) and its `any` dual" % why, b.where)
+           "accepted idioms: values.iter().all(|k| keys.contains(k)) and its `any` dual; the abstract interpreter stopped at: %s" % (why, unknown), b.where)
 
 
 def run(ctx):
